@@ -652,8 +652,17 @@ def rule_r4(chk, prog):
         src = comp.generators[0].iter if comp is not None else None
 
         def is_deffun_filter(v):
-            return isinstance(v, ast.Call) and call_name(v) == 'filter' and \
-                'not is_defined_fun(' in unparse(v.args[0])
+            if isinstance(v, ast.Call) and call_name(v) == 'filter' and \
+                    'not is_defined_fun(' in unparse(v.args[0]):
+                return True
+            if isinstance(v, (ast.ListComp, ast.GeneratorExp)) and len(
+                    v.generators) == 1 and isinstance(
+                        v.generators[0].target, ast.Name):
+                tv = v.generators[0].target.id
+                return any(unparse(c) == f'not is_defined_fun({tv})'
+                           for c in v.generators[0].ifs) and unparse(
+                               v.elt) == tv
+            return False
 
         ok = isinstance(src, ast.Name) and _filtered_by(
             f, n, src.id, is_deffun_filter)
